@@ -420,12 +420,12 @@ def handle (sc obs : Json) : Json :=
   | .ok s, .ok o =>
     -- "H": the run did not return within the harness watchdog. The model always terminates, so this is a
     -- disagreement, and a violation of every property judged on this run.
-    if o.runs.any (·.out == "H") then
+    if o.runs.any (fun r => r.out == "H" || r.out == "P") then
       Json.mkObj [("agree", Json.bool false),
         ("spec", Json.mkObj (allKeys.map fun k => (k, Json.bool false))),
         ("specModel", Json.mkObj (allKeys.map fun k => (k, Json.bool true))),
         ("nontrivial", Json.mkObj []),
-        ("model", Json.str "the implementation did not return (watchdog); the model terminates")]
+        ("model", Json.str "the implementation did not return (watchdog \"H\") or panicked (\"P\"); the model terminates normally")]
     else
     match process s o with
     | .ok v => verdictJson v
